@@ -58,12 +58,14 @@ def unset (W : Nat) (t : Table K V) (b : Nat) (k : K) : Option (Table K V) :=
   | some h => some { t with cache := t.cache.insert k h }
   | none => none
 
-/-- The persistent writes `commit(b)` issues for one cached key: history row first, value row second. -/
+/-- The persistent writes `commit(b)` issues for one cached key. A history that is kept is written before the
+value row; an old history is deleted only *after* the value row is up to date (so that a crash between the two
+writes always leaves a history on disk from which a later reorg can restore the value row). -/
 def keyWrites (W : Nat) (b : Nat) (k : K) (h : Hist V) : List (Write K V) :=
-  [ if h.isOld W b then Write.delCdb k else Write.putCdb k h,
-    match h.latest with
+  let valueRow : Write K V := match h.latest with
     | some v => Write.putDb k v
-    | none => Write.delDb k ]
+    | none => Write.delDb k
+  if h.isOld W b then [valueRow, Write.delCdb k] else [Write.putCdb k h, valueRow]
 
 /-- All persistent writes of `commit(b)`, in `HashMap` iteration order of the cache. -/
 def commitWrites (W : Nat) (t : Table K V) (b : Nat) : List (Write K V) :=
